@@ -664,13 +664,13 @@ def run_history(ops, scratch):
         def target(ch):
             CH[0] = ch
             res = fn()
-            fd = os.open(os.path.join(ch.ctl, 'result'), os.O_WRONLY | os.O_CREAT | os.O_TRUNC, 0o644)
+            fd = proc._real_os['open'](os.path.join(ch.ctl, 'result'), os.O_WRONLY | os.O_CREAT | os.O_TRUNC, 0o644)
             import json
             data = json.dumps(res, sort_keys=True, default=proc._default).encode('utf-8')
             while data:
-                n = os.write(fd, data)
+                n = proc._real_os['write'](fd, data)
                 data = data[n:]
-            os.close(fd)
+            proc._real_os['close'](fd)
             return 0
         r = proc.spawn(world, {'net': 'down'}, target, ctl_parent=ctlp, timeout=60)
         if r.exit != 0:
